@@ -194,6 +194,7 @@ proof fn lemma_from_timespec_final(y: int, m: int, d: int, sod: int, dn: int, t:
         0 <= sod % 60 < 60,
         secs(y, m, d, sod / 3600, (sod / 60) % 60, sod % 60) == t,
         (-2147483648 <= y <= 2147483647) <==> (utc_min() <= t <= utc_max()),
+        dby(y) * 86400 <= t < dby(y + 1) * 86400,
 {
     lemma_hms(sod);
     let h = sod / 3600;
